@@ -74,6 +74,66 @@ class Outcome:
         return 'ok' if self.ok else '%s@%s' % (self.exc_class, self.exc_where)
 
 
+_RICH = {}
+
+
+def rich_image():
+    """A deterministic image that uses every optional structure at once (Joliet, Rock Ridge with a
+    relocated directory and a continuation area, UDF, XA, El Torito with an x86 and two EFI
+    entries and a boot info table, isohybrid with GPT and APM, a second PVD, hidden and linked
+    entries): what an object has seen before it is close()d and used for another image."""
+    if 'img' not in _RICH:
+        import pycdlib
+        iso = pycdlib.PyCdlib()
+        iso.new(interchange_level=3, joliet=3, rock_ridge='1.09', udf='2.60', xa=True, vol_ident='PREVIOUS', sys_ident='OLDSYS')
+        p = ''
+        for d in range(8):
+            p += '/Q%d' % d
+            iso.add_directory(p, rr_name='q%d' % d)
+        iso.add_directory('/JD', rr_name='jd', joliet_path='/jd', udf_path='/jd')
+        iso.add_fp(io.BytesIO(b'old' * 1000), 3000, '/JD/OLD.TXT;1', rr_name='o' * 200, joliet_path='/jd/old.txt', udf_path='/jd/old.txt')
+        iso.add_hard_link(iso_old_path='/JD/OLD.TXT;1', iso_new_path='/OLDLINK.;1', rr_name='oldlink')
+        iso.add_symlink('/SYM.;1', rr_symlink_name='sym', rr_path='jd/' + 'o' * 200, udf_symlink_path='/sym', udf_target='jd/old.txt')
+        boot = bytearray(b'\x00' * 2048)
+        boot[0x40:0x44] = b'\xfb\xc0\x78\x70'
+        iso.add_fp(io.BytesIO(bytes(boot)), 2048, '/BOOT.;1', rr_name='boot')
+        iso.add_eltorito('/BOOT.;1', boot_load_size=4, boot_info_table=True)
+        for k in range(2):
+            iso.add_fp(io.BytesIO(b'E' * 4096), 4096, '/EFI%d.;1' % k, rr_name='efi%d' % k)
+            iso.add_eltorito('/EFI%d.;1' % k, efi=True, platform_id=0xef)
+        iso.rm_hard_link(iso_path='/EFI1.;1')
+        iso.add_isohybrid(efi=True, mac=True)
+        iso.duplicate_pvd()
+        iso.set_hidden(iso_path='/OLDLINK.;1')
+        out = io.BytesIO()
+        iso.write_fp(out)
+        iso.close()
+        _RICH['img'] = out.getvalue()
+    return _RICH['img']
+
+
+def used_session(seed, how=0, always_consistent=False):
+    """A closed Session whose PyCdlib object has held the rich image before: opened from its bytes
+    (how 0), opened and edited without writing (how 1).  Pass it as reuse= to the next Session."""
+    from harness.model import Cfg
+    s = Session(Cfg(level=3, joliet=3, rr='1.09', udf=True, xa=True), seed, always_consistent)
+    s.open_bytes(rich_image())
+    if how == 1:
+        s.iso.add_directory('/NEVER', rr_name='never', joliet_path='/never')
+        s.iso.rm_file(iso_path='/OLDLINK.;1')
+    s.close()
+    count('used_object:%d' % how)
+    return s
+
+
+def first_session(cfg, seed, always_consistent=False):
+    """The Session a history starts in: for one seed in sixteen its object has held another image
+    before (close() documents the object as reusable), otherwise it is fresh."""
+    if seed % 16 == 9:
+        return Session(cfg, seed, always_consistent, reuse=used_session(seed, (seed // 16) % 2, always_consistent))
+    return Session(cfg, seed, always_consistent)
+
+
 def innermost_pycdlib_frame(exc):
     tb = exc.__traceback__
     where = None
@@ -347,7 +407,7 @@ class DiskReader(io.RawIOBase):
 def replay(cfg, ops, seed=0, always_consistent=False, clock=1600000000.0):
     """Execute a recorded op list on a fresh object (twin execution)."""
     env.reset(seed, clock)
-    s = Session(cfg, seed, always_consistent).new()
+    s = first_session(cfg, seed, always_consistent).new()
     for op in ops:
         s, out = advance(s, op)
         if op['op'] == 'reopen' and not out.ok:
